@@ -17,7 +17,8 @@ RULE = (
     "actually used: (lo) non-zero quark rows of an EM F2 LO run are exactly +-1..+-nf; (beta) at PTO 2 with "
     "renormalisation-scale variation O[(2,0,1,0)] = -(11-2nf/3) O[(1,0,0,0)] entrywise; (gluon) the NLO gluon row is "
     "proportional to sum_{q<=nf} e_q^2 across a threshold; (meta) two ZM-VFNS cards with different masses/ratios "
-    "but equal reference nf give bitwise equal outputs. Non-trivial = some Q2 within one ulp of a matching scale."
+    "but equal reference nf at a point give bitwise equal outputs for it (PTO 1, or PTO 2 with both scale variations; card 1 computes all 1-4 points - which may "
+    "lie in different nf regions - in one run, card 2 each point in a run of its own). Non-trivial = some Q2 within one ulp of a matching scale."
 )
 ASSUMPTIONS = [
     "matching scales are generated in the natural order mu_c < mu_b < mu_t (eko's nf_default is defined for that order only)",
@@ -25,7 +26,7 @@ ASSUMPTIONS = [
 ]
 BUDGET = {"quick": {"examples": 2400, "wall": 300}, "thorough": {"examples": 60000, "wall": 2400}}
 MANDATORY = {
-    t: ["nontrivial", "clause:lo", "clause:beta", "clause:gluon", "clause:meta", "at:charm", "at:bottom", "at:top",
+    t: ["nontrivial", "clause:lo", "clause:beta", "clause:gluon", "clause:meta", "meta:pto2+scale-variations", "meta:run-spans-several-nf", "at:charm", "at:bottom", "at:top",
         "below:charm", "below:bottom", "below:top", "above:charm", "scheme:ZM-VFNS", "scheme:FFNS", "scheme:FFN0",
         "scheme:FONLL-FFNS", "scheme:FONLL-FFN0"]
     for t in ("quick", "thorough")
@@ -80,6 +81,7 @@ def cases(draw, tier="quick"):
         th2 = dict(th)
         th2.update(draw(cards.masses(dyadic=draw(st.booleans()))))
         case["theory2"] = th2
+        case["sv"] = draw(st.booleans())
     if clause == "beta":
         case["kind"] = draw(st.sampled_from(["F2", "FL", "F3"]))
         case["process"] = draw(st.sampled_from(["EM", "NC", "CC"]))
@@ -149,21 +151,35 @@ def check_case(case):
             if not d <= 1e-8 * s + 1e-300:
                 v.fail("C06:gluon-charge-sum", f"NLO gluon rows at Q2={case['q2'][0]!r} (nf {nfs[0]}) and {case['q2'][i]!r} (nf {nfs[i]}) are not in the ratio of sum e_q^2")
     else:
-        t1, t2 = dict(th, PTO=1), dict(case["theory2"], PTO=1)
+        sv = bool(case.get("sv"))
+        extra = {"PTO": 2, "RenScaleVar": True, "FactScaleVar": True} if sv else {"PTO": 1}
+        t1, t2 = dict(th, **extra), dict(case["theory2"], **extra)
+        if sv:
+            v.label("meta:pto2+scale-variations")
         # keep only the points where both cards prescribe the same nf
-        keep = [k for k in kins if cards.nf_ref(t1, k["Q2"]) == cards.nf_ref(t2, k["Q2"])]
+        keep = [i for i, k in enumerate(kins) if cards.nf_ref(t1, k["Q2"]) == cards.nf_ref(t2, k["Q2"])]
         v.label(f"meta:kept:{min(len(keep),1)}")
         if not keep:
             v.nontrivial = False
             v.labels = [l for l in v.labels if l != "nontrivial"]
             return v
-        ob["observables"] = {"F2_total": keep, "FL_total": keep}
-        r1, r2 = run.run(t1, ob), run.run(t2, ob)
-        for name in ("F2_total", "FL_total"):
-            for a, b, k in zip(r1[name], r2[name], keep):
-                ok, why = run.bitwise_equal_res(a, b)
+        if len({nfs[i] for i in keep}) < len(set(nfs)) or len(set(nfs)) > 1:
+            v.label("meta:run-spans-several-nf")
+        # card 1: all points in one run (they may lie in different nf regions); card 2: each kept point in a run of its own
+        ob["observables"] = {"F2_total": kins, "FL_total": kins}
+        r1 = run.run(t1, ob)
+        for i in keep:
+            ob2 = copy.deepcopy(ob)
+            ob2["observables"] = {"F2_total": [kins[i]], "FL_total": [kins[i]]}
+            r2 = run.run(t2, ob2)
+            for name in ("F2_total", "FL_total"):
+                ok, why = run.bitwise_equal_res(r1[name][i], r2[name][0])
                 if not ok:
-                    v.fail("C06:meta:threshold-dependence", f"ZM-VFNS results with equal nf_ref differ ({why}) at Q2={k['Q2']!r}")
+                    v.fail(
+                        "C06:meta:threshold-dependence",
+                        f"ZM-VFNS results with equal nf_ref={nfs[i]} differ ({why}) at Q2={kins[i]['Q2']!r} for {name} "
+                        f"(card 1: run over Q2={case['q2']} with nf {nfs}; card 2: the point alone)",
+                    )
     return v
 
 
